@@ -24,11 +24,14 @@ def items_for(letter, k, n, kind):
     are disjoint and never equal to a dimension letter or name."""
     if kind in ("int", "uint"):
         return [100 * (k + 1) + i for i in range(n)]
+    if kind == "umixed":
+        # an untyped dimension may mix label types (['pre-industrial', 1950, 2000]); the library's own tests do
+        return [f"{letter}{i}" if i % 2 == 0 else 100 * (k + 1) + i for i in range(n)]
     return [f"{letter}{i}" for i in range(n)]
 
 
 def kind_dtype(kind):
-    return {"str": "str", "int": "int", "ustr": None, "uint": None}[kind]
+    return {"str": "str", "int": "int", "ustr": None, "uint": None, "umixed": None}[kind]
 
 
 @st.composite
@@ -38,7 +41,7 @@ def universes(
     max_dims=4,
     max_len=3,
     min_len=1,
-    kinds=("str", "int", "ustr", "uint"),
+    kinds=("str", "int", "ustr", "uint", "umixed"),
     with_time=False,
     letters=None,
     long_dim=0,
